@@ -386,7 +386,9 @@ class Session:
                     else:
                         self.tls_version = TlsVersion.TLS12
                 else:
+                    # unknown protocol version in the ServerHello: nothing to derive keys for
                     self.can_decrypt = False
+                    return
         self.generate_keys(self.tls_version, self.ciphersuite, self.client_random, self.server_random)
 
     def handle_alert(self, alert_level):
